@@ -726,6 +726,10 @@ pub struct Recipe {
     /// per unique chunk (descriptor index): true = store raw even if compression would shrink it.
     /// When false (or missing) the chunk is stored compressed iff compressed.len() < source len.
     pub raw: Vec<bool>,
+    /// per unique chunk: true = store the compressed form even when it is LARGER than the chunk
+    /// (conforming: only "compressed with stored size == source size" is excluded, in which case
+    /// the chunk is stored raw). Ignored for `raw` chunks and without compression.
+    pub force_compressed: Vec<bool>,
     /// 1..=64 (bita itself uses 4..=64)
     pub hash_len: usize,
     /// recorded verbatim (chunk_hash_length is overwritten with hash_len)
@@ -789,7 +793,8 @@ pub fn build_archive(source: &[u8], cuts: &[usize], recipe: &Recipe) -> Result<B
             stored.push(chunk.to_vec());
         } else {
             let c = compress(recipe.comp.compression, recipe.comp.compression_level, chunk)?;
-            stored.push(if c.len() < chunk.len() { c } else { chunk.to_vec() });
+            let force = recipe.force_compressed.get(i).copied().unwrap_or(false);
+            stored.push(if c.len() < chunk.len() || (force && c.len() != chunk.len()) { c } else { chunk.to_vec() });
         }
     }
     // 3. physical order
@@ -1347,6 +1352,7 @@ mod tests {
             order: vec![],
             gaps: vec![],
             raw: vec![],
+            force_compressed: vec![],
             hash_len,
             params: Params { chunk_filter_bits: 0, min_chunk_size: 0, max_chunk_size: 1000, rolling_hash_window_size: 0, chunk_hash_length: 0, chunking_algorithm: 2 },
             comp: Comp { compression: comp, compression_level: level },
